@@ -110,9 +110,19 @@ func (u *union) Parse(ctx *parseContext, parent reflect.Value) (out []reflect.Va
 		return nil, err
 	}
 	for i := range vals {
-		vals[i] = maybeRef(u.members[i], vals[i]).Convert(u.typ)
+		vals[i] = maybeRef(u.memberFor(vals[i]), vals[i]).Convert(u.typ)
 	}
 	return vals, nil
+}
+
+// memberFor returns the union member type (T or *T) that the parsed struct value "v" belongs to.
+func (u *union) memberFor(v reflect.Value) reflect.Type {
+	for _, member := range u.members {
+		if member == v.Type() || (member.Kind() == reflect.Ptr && member.Elem() == v.Type()) {
+			return member
+		}
+	}
+	return v.Type()
 }
 
 // @@
